@@ -10,7 +10,7 @@ use crate::refimpl::rgzh::Wrap;
 use crate::runner::*;
 use crate::tape::{Fp, Tape};
 
-pub const RULE: &str = "write side: tape -> gz_header{text, time, os 0..255, extra 0..65535 bytes or NULL, name/comment 0..65535 bytes or NULL, hcrc} x memLevel (pending buffer 512 B .. 128 KiB, i.e. smaller or larger than the fields) x level/strategy (XFL) x deflate schedule with output chunks down to 1 byte; oracle = RFC 1952 parse of the emitted header equals the supplied fields bit for bit (FLG, MTIME, XFL rule, OS, XLEN+extra, NUL-terminated name/comment, CRC16 over the header bytes) and the body still decodes to the input. read side: tape -> R-GEN gzip stream with every flag combination and field sizes x input chunkings (1-byte, splits inside every field) x (extra_max, name_max, comm_max) in {NULL, 0, 1, exact, exact+-1, larger} with capture buffers ending at guard pages; oracle after inflate: text/time/xflags/os/extra_len/hcrc equal the stream's, extra/name/comment prefixes equal up to the capacity, absent fields have NULL pointers, done is 0 while total_in < header length, 1 once data flows, -1 for a zlib stream in auto mode. Non-trivial = header larger than the pending buffer (write) or a field split across >= 2 calls with capacity < field length (read); distinct by case fingerprint.";
+pub const RULE: &str = "write side: tape -> gz_header{text, time, os 0..255, extra 0..65535 bytes or NULL, name/comment 0..65535 bytes or NULL, hcrc} x memLevel (pending buffer 512 B .. 128 KiB, i.e. smaller or larger than the fields) x level/strategy (XFL) x deflate schedule with output chunks down to 1 byte; oracle = RFC 1952 parse of the emitted header equals the supplied fields bit for bit (FLG, MTIME, XFL rule, OS, XLEN+extra, NUL-terminated name/comment, CRC16 over the header bytes) and the body still decodes to the input. read side: tape -> R-GEN gzip stream with every flag combination and field sizes x fresh stream or stream reused (part of another gzip stream, abandoned anywhere, then inflateReset) x input chunkings (1-byte, splits inside every field) x (extra_max, name_max, comm_max) in {NULL, 0, 1, exact, exact+-1, larger} with capture buffers ending at guard pages; oracle after inflate: text/time/xflags/os/extra_len/hcrc equal the stream's, extra/name/comment prefixes equal up to the capacity, absent fields have NULL pointers, done is 0 while total_in < header length, 1 once data flows, -1 for a zlib stream in auto mode. Non-trivial = header larger than the pending buffer (write) or a field split across >= 2 calls with capacity < field length (read); distinct by case fingerprint.";
 
 fn write_case(t: &mut Tape, ctx: &Ctx, o: &mut Outcome) {
     let mut po = PlanOpts::standard();
@@ -105,10 +105,32 @@ fn read_case(t: &mut Tape, ctx: &Ctx, o: &mut Outcome) {
         _ => gen_inf_schedule(t),
     };
     let auto = zlib_instead || t.bool();
+    // a reused stream: first part of another gzip stream (abandoned mid-header, mid stored block or mid-match with
+    // a small output buffer), then inflateReset - the capture must be exactly that of a fresh stream
+    let reuse = t.chance(90);
+    let pre_bytes: Vec<u8> = if reuse {
+        let big2 = t.bool();
+        let f2 = gen_gz_fields(t, big2);
+        let go2 = GenOpts { max_dist: 32768, max_out: 3000, dict: &[], fault: Fault::None, max_blocks: 3 };
+        let g2 = rgen::gen_raw(t, &go2);
+        rgen::gzip_wrap(&f2, &g2.bytes, &g2.out)
+    } else {
+        Vec::new()
+    };
+    let pre = (1 + t.below(3), t.pick(&[1usize, 7, 30, 100, 1000, 100_000]), t.pick(&[0usize, 1, 10, 100, 257, 5000]));
     ARENAS.with(|ar| {
         let mut io = InfOpts::new(if auto { 47 } else { 31 });
+        if reuse {
+            io.prehistory = Some(Prehistory { bytes: &pre_bytes, calls: pre.0, in_chunk: pre.1, out_chunk: pre.2 });
+        }
         io.capture = Some(Capture { extra_max: em, name_max: nm, comm_max: cm, arenas: &ar.aux });
         let r = run_inflate::<Rs>(&bytes, &sched, &io, ar);
+        for (tag, sig, msg) in &r.violations {
+            if *tag == "C14" {
+                o.fail(sig.clone(), msg.clone());
+                return;
+            }
+        }
         let h = match &r.head {
             Some(h) => h,
             None => return,
@@ -207,6 +229,9 @@ fn read_case(t: &mut Tape, ctx: &Ctx, o: &mut Outcome) {
             }
         }
         o.class("read side");
+        if reuse {
+            o.class("read: stream reused after an abandoned gzip stream + inflateReset");
+        }
         let truncated = f.extra.as_ref().map_or(false, |e| em.map_or(false, |m| (m as usize) < e.len())) || f.name.as_ref().map_or(false, |e| nm.map_or(false, |m| (m as usize) < e.len() + 1)) || f.comment.as_ref().map_or(false, |e| cm.map_or(false, |m| (m as usize) < e.len() + 1));
         if truncated {
             o.class("read: capacity < field length");
